@@ -8,6 +8,7 @@ EXTENDS SlbP, TLC
 CONSTANTS WLo, WHi,    \* configurable weights are -WLo..WHi (may contain 0 and negatives)
           MaxConn, MaxPicks, MaxFlips, MaxUpdates, MaxConnOps,
           Scale,       \* internal weight = Scale * configured weight (100 in the code)
+          AnyOrder,    \* TRUE: every configuration order of the backends; FALSE: address order only
           Algos        \* subset of {"smooth","simple","sticky","wlc_smooth","wlc_simple"}
 
 Weights == (0 - WLo)..WHi
@@ -83,7 +84,7 @@ Sorted == SortedOf(InList)
 
 ------------------------------------------------------------------------
 Init == /\ \E w0 \in [B -> Weights] : PInit(w0, [b \in B |-> TRUE])
-        /\ ord \in Perms
+        /\ ord \in (IF AnyOrder THEN Perms ELSE {[i \in 1..N |-> i]})
         /\ cur = sw /\ nxt = 1
         /\ nops = [picks |-> 0, flips |-> 0, updates |-> 0, connops |-> 0]
 
